@@ -232,10 +232,7 @@ class AM:
                     raise UB("unsafe index out of range")
                 return 0, INT
             if i < len(buf):
-                b = buf[i]
-                if o.type == T.STR and not self.u8 and b >= 128:
-                    b -= 256  # plain char is signed on the platforms the C is run on
-                return b, INT
+                return buf[i], INT   # indexed bytes are read as uint8_t (0..255) whatever the storage type
             if o.type == T.STR and o.str_null and i == len(buf) and len(buf) > 0:
                 return 0, INT
             raise UB("read of a buffer byte that was never written")
